@@ -199,12 +199,12 @@ def wrap_lines(lines, wrap):
     return head, [(pad + l if l.strip() else l) for l in lines], []
 
 
-def side_rng(rng):
+def side_rng(rng, salt=""):
     """A second generator derived from the state of `rng` WITHOUT drawing from it: additions to a generator use it so that the
-    inputs an unchanged part produces for a given VERIF_SEED stay what they were."""
+    inputs an unchanged part produces for a given VERIF_SEED stay what they were (`salt`: a further, independent stream)."""
     import random
     import zlib
-    return random.Random(zlib.crc32(repr(rng.getstate()[1]).encode()))
+    return random.Random(zlib.crc32((salt + repr(rng.getstate()[1])).encode()))
 
 
 def gen_project(rng, n_bases=3, heavy_noise_p=0.25, max_items=9, twins_p=0.5, wrap_p=0.0, force_wrap=None, doc_p=0.0, docedit_p=0.0):
@@ -699,3 +699,64 @@ def gen_twins(rng, kinds, occ=None, n_fill=None):
     texts = {pa: "\n".join(hdr + twin_function(kinds, occ, n_fill, 0)) + "\n",
              pb: "\n".join(hdr + twin_function(kinds, occ, n_fill, 1)) + "\n"}
     return texts, dict(kinds=list(kinds), occ=occ, n_fill=n_fill, a=pa, b=pb, start=3)
+
+
+# ------------------------------------------------------------------------------------------
+# twins on both sides of batch boundaries (C09): the batch loop compares a cross-batch pair as
+# (later, earlier), the unbatched and the LSH loops as (earlier, later).  For every kind one file each
+# with A (variant 0), B (its related-construct twin, variant 1) and C (a verbatim copy of A):
+# (A, B) has variant 0 first, (B, C) variant 1 first, (A, C) is a structurally identical pair.
+# layout "spread": all A, then all B, then all C (with >= 7 kinds every twin pair is more than a
+# batch apart for batch sizes <= 7); layout "adjacent": A, B, C of a kind in a row (with no filler in
+# front and batch size 3 every twin pair shares a batch; other batch sizes cut through the rows).
+# ------------------------------------------------------------------------------------------
+def gen_twin_batches(rng, kinds, layout, fillers=0):
+    """Returns (files in analysis order, meta): meta[kind] = {"A": path, "B": path, "C": path, "occ", "n_fill", "start"}."""
+    rows, meta = [], {}
+    for k in kinds:
+        occ, nf = rng.randint(1, 2), rng.randint(3, 7)
+        name = "export_%s" % k
+        hdr = ["import os", ""]
+        mk = lambda v: "\n".join(hdr + twin_function([k], occ, nf, v, name)) + "\n"
+        sub = rng.choice(["", "pkg/"])
+        row = {"A": ("%sa_%s.py" % (sub, k), mk(0)), "B": ("tw/b_%s.py" % k, mk(1)), "C": ("copy/c_%s.py" % k, mk(0))}
+        rows.append(row)
+        meta[k] = dict(occ=occ, n_fill=nf, start=3, **{r: row[r][0] for r in "ABC"})
+    if layout == "spread":
+        files = [r[x] for x in "ABC" for r in rows]
+    else:
+        files = [r[x] for r in rows for x in "ABC"]
+    fill = [("fill%d.py" % i, "import os\n\n" + "\n".join(straight_function("fill%d" % i, 6, 10 * (i + 1))) + "\n") for i in range(fillers)]
+    return fill + files, meta
+
+
+# ------------------------------------------------------------------------------------------
+# a project with more than 100 fragments (C08): above BatchSizeThreshold = 50 the detector batches, with
+# the CLI's batch size of 100 the fragments from the 101st on are compared with all earlier ones as
+# (later, earlier).  Families of a small function: the base, a verbatim copy with comment noise, a renamed
+# copy and a chain of edits (edit of edit of ...), i.e. similarities from 1.0 downwards inside a family
+# and low ones across families; members shuffled over many small files so that family members land on
+# both sides of the batch boundary.
+# ------------------------------------------------------------------------------------------
+def gen_family_files(rng, n_families, per_file=3, chain=3):
+    """[(path, text)] and items [{name, path, start, family, relation}] (relation: base / verbatim / renamed / edit<k>)."""
+    g = FragGen(rng)
+    funcs = []
+    for b in range(n_families):
+        base = g.function(2, 5)
+        fam = [("base", base, {}), ("verbatim", base, {"noise_p": rng.choice([0.1, 0.2])}), ("renamed", base, {"renamed": True, "shift": rng.randint(0, 2)})]
+        e = base
+        for k in range(chain):
+            e = g.edit(e)
+            fam.append(("edit%d" % k, e, {}))
+        funcs += [("fam%d_%s" % (b, rel), f, kw, b, rel) for rel, f, kw in fam]
+    rng.shuffle(funcs)
+    files, items = [], []
+    for i in range(0, len(funcs), per_file):
+        path = "%sm%02d.py" % (("", "pkg/", "pkg/sub/")[(i // per_file) % 3], i // per_file)
+        lines = ["import os", ""]
+        for name, f, kw, b, rel in funcs[i:i + per_file]:
+            items.append(dict(name=name, path=path, start=len(lines) + 1, family=b, relation=rel))
+            lines += render(f, name, rng, **kw) + ["", ""]
+        files.append((path, "\n".join(lines) + "\n"))
+    return files, items
